@@ -274,7 +274,8 @@ func (p *PacketOut) UnmarshalBinary(data []byte) error {
 
 	n += 6 // for pad
 
-	for n < (n + p.ActionsLen) {
+	end := n + p.ActionsLen
+	for n < end {
 		a, err := DecodeAction(data[n:])
 		if err != nil {
 			return err
@@ -283,6 +284,9 @@ func (p *PacketOut) UnmarshalBinary(data []byte) error {
 		n += a.Len()
 	}
 
+	if p.Data == nil {
+		p.Data = new(util.Buffer)
+	}
 	err = p.Data.UnmarshalBinary(data[n:])
 	return err
 }
